@@ -460,3 +460,20 @@ PROPS["C15"] = Prop(
     trusted_base=VERUS_TRUST,
     not_covered=["the escape decoding table", "lexing of the rest of the file", "->len()", "the parser"],
 )
+
+
+# ---------------------------------------------------------------------------------------------
+# C16 Kani units (second back end for the operator matrix and the coercion points; the type-function
+# name table is only under contract here)
+# ---------------------------------------------------------------------------------------------
+import props_c16
+
+GENERATORS += [g for g in props_c16.GENERATORS if g not in GENERATORS]
+for _u in props_c16.MATRIX_UNITS + props_c16.COERCE_UNITS:
+    _u.thorough_only = True          # ~17-25 min at 16 jobs: thorough tier only (V-binop / V-coerce decide the quick tier)
+PROPS["C16"]._k = props_c16.TYPENAME_UNITS + props_c16.MATRIX_UNITS + props_c16.COERCE_UNITS
+PROPS["C16"]._kt = 400
+PROPS["C16"].assumptions = [a for a in PROPS["C16"].assumptions if "type_functions::render_type" not in a] + [
+    "type_functions::render_type / any_type (the ->type() builtin): Kani leaf contracts per kind (any_type on a user-function receiver does not terminate in CBMC: only render_type is checked for that kind)",
+    "the 240-harness Kani operator matrix and the 32 coercion harnesses run in the thorough tier only (second back end)"]
+PROPS["C16"].trusted_base = VERUS_TRUST + COMMON_TRUST
